@@ -29,7 +29,7 @@ type c18Field struct {
 }
 
 var c18Fields = []c18Field{
-	{"mode", map[string][]string{"valid": {`"dpdk"`, `"sim"`, `"af_xdp"`, `"af_packet"`, `"cndp"`}, "invalid": {`"fast"`, `""`}, "wrongtype": {`7`}, "absent": {""}}},
+	{"mode", map[string][]string{"valid": {`"dpdk"`, `"sim"`, `"af_xdp"`, `"af_packet"`, `"cndp"`}, "invalid": {`"fast"`, `""`, `"DPDK"`, `" dpdk"`, `"af_xdp "`, `"Sim"`, `" "`, `"dpdk\n"`}, "wrongtype": {`7`}, "absent": {""}}},
 	{"enable_p4rt", map[string][]string{"valid": {`false`}, "boundary": {`true`}, "wrongtype": {`"yes"`}, "absent": {""}}},
 	{"resp_timeout", map[string][]string{"valid": {`"2s"`, `"750ms"`, `"1m"`}, "boundary": {`"0s"`, `"1ns"`}, "invalid": {`"2 s"`, `"fast"`, `"5"`}, "wrongtype": {`5`}, "absent": {""}}},
 	{"max_req_retries", map[string][]string{"valid": {`5`, `1`}, "boundary": {`255`, `0`}, "invalid": {`256`, `-1`}, "wrongtype": {`"5"`}, "absent": {""}}},
@@ -47,6 +47,10 @@ var c18Fields = []c18Field{
 
 type c18Doc map[string]string // path -> class
 
+// c18Pick, when set for a path, selects the value of the class by index instead of at random (single-field variations
+// go through every value of the class)
+var c18Pick = map[string]int{}
+
 func renderDoc(rng *rand.Rand, d c18Doc) string {
 	top := map[string]string{}
 	nested := map[string]map[string]string{}
@@ -55,6 +59,9 @@ func renderDoc(rng *rand.Rand, d c18Doc) string {
 		cls := d[f.path]
 		vals := f.classes[cls]
 		v := vals[rng.Intn(len(vals))]
+		if k, ok := c18Pick[f.path]; ok {
+			v = vals[k%len(vals)]
+		}
 
 		if v == "" {
 			continue
@@ -256,9 +263,17 @@ func c18Worker(args []string) error {
 
 				d[fl.path] = cls
 
-				for r := 0; r < reps; r++ {
+				n := reps
+				if len(fl.classes[cls]) > n {
+					n = len(fl.classes[cls])
+				}
+
+				for r := 0; r < n; r++ {
+					c18Pick[fl.path] = r
 					emitDoc(d)
 				}
+
+				delete(c18Pick, fl.path)
 			}
 		}
 	}
